@@ -13,8 +13,8 @@
 import TaRs.Lemmas.FastStochastic
 import TaRs.Lemmas.CommodityChannelIndex
 import TaRs.Lemmas.RelativeStrengthIndex
-import TaRs.Lemmas.PercentagePriceOscillator
-import TaRs.Lemmas.OnBalanceVolume
+import TaRs.Lemmas.Core.PercentagePriceOscillator
+import TaRs.Lemmas.Core.OnBalanceVolume
 namespace TaRs.Props.C03
 open TaRs TaRs.Gen
 
